@@ -11,7 +11,12 @@ export PATH="$PWD/bin/gobin:$PATH" GOFLAGS=-mod=mod GOPROXY=off GOSUMDB=off GOTO
 unset GOWORK; export GOWORK=off
 ( cd analyzer && go build -o ../bin/bleveverif . ) || { echo "UNDECIDED property=$PROP analyzer build failed"; exit 2; }
 if [ "$TIER" = thorough ] && [ -x ./witness.sh ]; then
-  ./bin/bleveverif -prop "$PROP" -tier thorough -repo "$REPO" -verif "$PWD" || exit $?
-  exec ./witness.sh "$PROP"
+  # thorough = the same static rules + self-validation of the checker against the stored seeded changes
+  ./witness.sh "$PROP" > "evidence/$PROP.witness.log" 2>&1; W=$?
+  tail -3 "evidence/$PROP.witness.log"
+  ./bin/bleveverif -prop "$PROP" -tier thorough -repo "$REPO" -verif "$PWD"; C=$?
+  [ $C -ne 0 ] && exit $C
+  if [ $W -ne 0 ]; then echo "UNDECIDED property=$PROP the checker missed a stored witness (see evidence/$PROP.witness.log)"; exit 2; fi
+  exit 0
 fi
 exec ./bin/bleveverif -prop "$PROP" -tier "$TIER" -repo "$REPO" -verif "$PWD"
